@@ -153,7 +153,10 @@ def install():
             return _orig["getitem"](self, key)
         func = getattr(type(self), key, None)
         if func is None or not hasattr(func, "__code__") or func.__code__.co_argcount != 1:
-            return _orig["getitem"](self, key)
+            v = _orig["getitem"](self, key)       # hands back the method itself
+            rec.events.append({"ev": "getfunc", "key": key, "depth": rec.depth, "ndata": dict.__len__(self.data),
+                               "naged": len(self.last_accessed)})
+            return v
         d = rec.depth
         rec.events.append({"ev": "enter", "key": key, "depth": d})
         rec.stack.append(key)
